@@ -192,8 +192,77 @@ def fault_id(op):
     return f"fault:{op['fault']} {O.path_str([tuple(x) for x in op['path']])} {extra}".strip()
 
 
+ROOTS = [  # trees whose root is not a Module: every kind of stand-alone node a put can be aimed at
+    ('case [a, b] if c: pass', 'match_case'), ('except (E, F) as e: pass', 'ExceptHandler'), ('x = [a, b]', 'stmt'), ('f(a, k=b)', 'expr'),
+    ('a, b=1, *c', 'arguments'), ('a as b', 'withitem'), ('for a in b if c', 'comprehension'), ('k=v', 'keyword'), ('[a, *b]', 'pattern'),
+    ('m.n as o', 'alias'), ('T: int', 'type_param'), ('if a:\n    b\nelse:\n    c', 'stmt'), ('x: int = 1', 'stmt'),
+]
+ROOT_BAD = ['a +', ')', 'x = ', 'if', '1 1', '[', 'é é', 'pass', 'case 1: pass', '*', ':']
+
+
+def run_rootfaults(fst, ri, tier, res):
+    """Invalid code put (element mode and raw mode) at every node of a tree whose root is a stand-alone node: whatever raises must
+    leave source, tree and positions as they were and the tree usable."""
+    src, mode = ROOTS[ri]
+    root0 = fst.FST(src, mode)
+    paths = [p for p, a in O.iter_nodes(root0.a) if getattr(a, 'f', None) is not None]
+    for path in paths:
+        for code in ROOT_BAD:
+            for opts in ({}, {'raw': True}, {'raw': 'auto'}):
+                root = fst.FST(src, mode)
+                n = root
+                for f, i in path:
+                    v = getattr(n.a, f)
+                    n = (v[i] if i is not None else v).f
+                pre = (root.src, O.dump_pos(root.a))
+                oid = ','.join(f'{k}={v!r}' for k, v in opts.items())
+                cid = f'C12/root{ri}:{mode}/{O.path_str(path) or "<root>"}<-{code!r}/{oid}'
+                rep = {'rootfault': ri}
+                res.evals += 1
+                res.transitions += 1
+                try:
+                    n.replace(code, norm=True, **opts)
+                    res.outcomes['root-request-accepted'] += 1
+                    continue
+                except Exception as e:  # noqa: BLE001
+                    exc = e
+                res.traces += 1
+                res.outcomes[f'rootfault->{exc.__class__.__name__}'] += 1
+                params = {'op': 'replace', 'fault': 'root-bad-code', 'exc': exc.__class__.__name__, 'raw': bool(opts)}
+                try:
+                    now = (root.src, O.dump_pos(root.a))
+                except Exception as e:  # noqa: BLE001
+                    res.fail(cid, 'tree-unreadable-after-failed-edit', repr(e), params, rep)
+                    continue
+                if now != pre:
+                    res.fail(cid, 'failed-edit-changed-' + ('source' if now[0] != pre[0] else 'tree/positions'),
+                             f'root={src!r} ({mode})\nrequest=replace {O.path_str(path)} <- {code!r} {opts}\nraised={exc!r}\nnow={now[0]!r}', params, rep)
+                    continue
+                if registry_leftover():
+                    res.fail(cid, 'modification-registry-not-empty', '', params, rep)
+                    continue
+                # the tree is still editable: the same node takes valid code (its own source) exactly like on a fresh twin
+                if n is not root and not isinstance(n.a, (ast.expr_context, ast.operator, ast.boolop, ast.unaryop, ast.cmpop)):
+                    twin = fst.FST(src, mode)
+                    t = twin
+                    for f, i in path:
+                        v = getattr(t.a, f)
+                        t = (v[i] if i is not None else v).f
+                    outs = []
+                    for tree_, node_ in ((twin, t), (root, n)):
+                        try:
+                            node_.replace(node_.own_src(), norm=True)
+                            outs.append(('ok', tree_.src, O.dump_pos(tree_.a)))
+                        except Exception as e:  # noqa: BLE001
+                            outs.append(('raised', e.__class__.__name__, None))
+                    if outs[0] != outs[1]:
+                        res.fail(cid, 'follow-up-edit-differs-from-fresh-tree', f'fresh={outs[0][:2]!r}\nafter-failure={outs[1][:2]!r}', params, rep)
+                        continue
+                res.nontriv(ri, path, code, oid)
+
+
 def shards(tier):
-    out = []
+    out = [{'rootfault': r} for r in range(len(ROOTS))]
     for i, src in enumerate(PROGRAMS):
         parts = (4 if len(src) < 50 else 16) if tier == 'quick' else (16 if len(src) < 50 else 32)  # big programs are the long pole
         out += [{'prog': i, 'part': [r, parts]} for r in range(parts)]
@@ -304,6 +373,9 @@ def _check_raise(fst, src0, root, pre, hist, exc, cid, res, tier):
 def run_shard(desc, tier, res):
     import fst
     import pfstmc.explore as XX
+    if 'rootfault' in desc:
+        run_rootfaults(fst, desc['rootfault'], tier, res)
+        return
     src0 = PROGRAMS[desc['prog']]
     a1 = dict(nk=1, nks=1, forms=('src',), opts=({},), kinds=('replace', 'remove', 'insert', 'put_slice', 'line_comment')) if tier == 'quick' else dict(nk=6, nks=3, opts=({}, {'trivia': False}))
     a2 = dict(nk=1, nks=1, forms=('src',), opts=({},))
@@ -338,6 +410,9 @@ def run_shard(desc, tier, res):
 
 def replay(rep, res):
     import fst
+    if 'rootfault' in rep:
+        run_rootfaults(fst, rep['rootfault'], 'quick', res)
+        return
     root = fst.FST(rep['src'], 'exec')
     for op in rep['hist'][:-1]:
         apply(fst, root, op)
